@@ -1,12 +1,12 @@
-\* C14 long walks (tlc -simulate num=N -depth 210): the writer may fail at every third call
+\* C14 behaviours, thorough: kind -> (kind x fault) -> kind for every configuration
 CONSTANTS
   Bug = "none"
   ConfigNames = {"v1", "n1", "v2d", "n2d", "v3dd", "v1i", "s2d", "sn1", "wf", "ws", "wg"}
-  Depth = 200
+  Depth = 3
   Configs = {"v1", "n1", "v2d", "n2d", "v3dd", "v1i", "s2d", "sn1", "wf", "ws", "wg"}
-  FaultAt = {}
-  FaultMod = 3
-  NoHuge = {}
+  FaultAt = {1}
+  FaultMod = 0
+  NoHuge = {"v1", "n1", "n2d", "v1i", "sn1", "wf", "ws", "wg"}
 SPECIFICATION RSpec
 INVARIANT Emit
 CONSTRAINT Bound
